@@ -349,6 +349,10 @@ def _fixed_injections(stride, switches):
 def _fixed_shard(item):
     shard, nshards, stride, all8, switches = item
     part = new_part()
+    # the base itself converts first: whatever the converter remembers about ACCEPTED programs
+    # must not make it accept the injected ones
+    for cfg in env.ALL_CFGS[:2]:
+        env.convert(BASE, cfg, 0)
     for i, (c, w, nt, tree) in enumerate(_fixed_injections(stride, switches)):
         if i % nshards != shard:
             continue
@@ -370,6 +374,10 @@ def _gen_shard(item):
         except SyntaxError:
             part["discarded"]["base-does-not-compile"] += 1
             return None
+        try:
+            env.convert(p.source, env.DEFAULT_CFG, 0)      # accepted first (see _fixed_shard)
+        except Exception:
+            pass
         for i, (c, w, nt, tree) in enumerate(injections(p.source, stride, switches)):
             check_injection(sub, c, w, nt, tree, _cfgs(i, False), key_hash(p.source))
             if sub["violations"]:
@@ -473,6 +481,38 @@ def effect_diffs(src, cfg, expect_err):
     return d
 
 
+def _host_shard(item):
+    """injections into the fixed base converted under ANOTHER host interpreter (the set of statement
+    classes differs between versions: try/except*, match, type aliases)"""
+    from .. import interp
+    host, cases = item
+    part = new_part()
+    pl = interp.Pool()
+    try:
+        if host not in pl.found:
+            part["discarded"]["host-%s-not-found" % host] += len(cases)
+            return part
+        w = pl.get(host)
+        w.call({"op": "convert", "repo": env.REPO, "src": BASE, "cfg": list(env.DEFAULT_CFG), "seed": 0})
+        for k, (construct, where, src) in enumerate(cases):
+            cfg = env.ALL_CFGS[k % 8]
+            r = w.call({"op": "convert", "repo": env.REPO, "src": src, "cfg": list(cfg), "seed": 0})
+            if r.get("worker_error"):
+                raise env.HarnessError("host worker %s: %s" % (host, r.get("err")))
+            part["evaluations"] += 1
+            part["classes"]["host:" + host] += 1
+            part["nontrivial"].add(key_hash(host, construct, where))
+            if r.get("ok") and len(part["violations"]) < 3:
+                part["violations"].append({
+                    "payload": {"kind": "reject-host", "src": src, "cfg": list(cfg), "host": host},
+                    "diffs": ["conversion on host %s of a program containing %s at %s returned: %s" % (
+                        host, construct, where, r["text"][:160])],
+                    "what": "unsupported/illegal construct accepted on host %s (%s)" % (host, construct)})
+    finally:
+        pl.close()
+    return part
+
+
 def _effect_shard(item):
     shard, nshards = item
     part = new_part()
@@ -517,6 +557,24 @@ def run(report):
     items += [(_gen_shard, (env.sub_seed(report.seed, "C08", i), per, 3 if quick else 1, switches))
               for i in range(env.NPROC)]
     items += [(_effect_shard, (i, 8)) for i in range(8)]
+    from .. import hosts as _hosts
+    others = _hosts.available_other_hosts()
+    if others:
+        per_construct = {}
+        for (c, w, nt, src) in _fixed_injections(1, switches):
+            if src is not None:
+                per_construct.setdefault(c, []).append((c, w, src))
+        hcases = []
+        keep = 24 if quick else 200
+        for c in sorted(per_construct):
+            lst = per_construct[c]
+            step = max(1, len(lst) // keep)
+            hcases += lst[::step][:keep]
+            hcases += [x for x in lst if x[1].endswith("dead")][:keep // 3]
+        per = max(1, env.NPROC // len(others))
+        items += [(_host_shard, (h, hcases[j::per])) for h in others for j in range(per)]
+        report.extra["other_hosts"] = others
+        report.extra["host_injections_per_host"] = len(hcases)
     for part in env.pmap(_call, items):
         report.absorb(part)
     report.exhaustive = True
@@ -534,6 +592,15 @@ def _call(item):
 
 
 def replay(payload):
+    if payload.get("kind") == "reject-host":
+        from .. import interp
+        pl = interp.Pool()
+        try:
+            r = pl.get(payload["host"]).call({"op": "convert", "repo": env.REPO, "src": payload["src"],
+                                              "cfg": payload["cfg"], "seed": 0})
+            return ["conversion on host %s returned: %s" % (payload["host"], r["text"][:160])] if r.get("ok") else []
+        finally:
+            pl.close()
     if payload.get("kind") == "effect":
         return effect_diffs(payload["src"], tuple(payload["cfg"]), payload.get("err")) or []
     raise env.HarnessError("C08 payloads are of the kinds 'reject' (generic) and 'effect'")
